@@ -231,7 +231,7 @@ def run_config(v, ctx, tftpd, thorough, names, cfgname, dist, ow, rng):
         dsrv, cwd = rng.choice([".", "./", "./."]), sb["srv"]
     elif "nested-relative" in cfgname:
         dsrv, cwd = rng.choice(["srv2", "./srv2"]), sb["srv"]
-    srv = N.Server(tftpd, dsrv + slash, overwrite=ow, cwd=cwd, send_dir=(dsrv + slash) if dist else None, recv_dir=(drcv + slash) if dist else None, logdir=sb["logs"], strace=strace_path, shuffle=rng, d_last=(cfgname == "distinct"))
+    srv = N.Server(tftpd, dsrv + slash, overwrite=ow, keep=("+keep" in cfgname), cwd=cwd, send_dir=(dsrv + slash) if dist else None, recv_dir=(drcv + slash) if dist else None, logdir=sb["logs"], strace=strace_path, shuffle=rng, d_last=(cfgname == "distinct"))
     patient_retries = 0
     unanswered_unjudged = 0
     with srv:
@@ -333,10 +333,11 @@ def run(tier):
     configs = [("shared", False, False), ("distinct", True, False), ("shared+overwrite", False, True), ("distinct+overwrite", True, True),
                ("shared/trailing-slash", False, False), ("distinct/trailing-slash", True, True),
                ("shared/relative-dir", False, False), ("distinct/relative-dir", True, False),
-               ("shared/dot-dir", False, False), ("shared/nested-relative", False, True)]
+               ("shared/dot-dir", False, False), ("shared/nested-relative", False, True),
+               ("shared+overwrite+keep", False, True), ("distinct+overwrite+keep", True, True)]
     import concurrent.futures
     import random
-    with concurrent.futures.ThreadPoolExecutor(max_workers=10) as ex:
+    with concurrent.futures.ThreadPoolExecutor(max_workers=12) as ex:
         futs = [ex.submit(run_config, v, ctx, tftpd, thorough, names, cfgname, dist, ow, random.Random(C.seed() * 7919 + i)) for i, (cfgname, dist, ow) in enumerate(configs)]
         for f in futs:
             e, d, sm, cl, ss = f.result()
